@@ -95,6 +95,7 @@ def replace_callables_and_configs_with_symbols(
         value.__arguments__[arg] = code_ir.WithTagsCall(
             tag_symbol_expressions=tag_expr,
             item_to_tag=value.__arguments__[arg],
+            as_tagged_value=True,
         )
       return code_ir.SymbolOrFixtureCall(
           symbol_expression=ir_for_buildable_type,
